@@ -162,7 +162,7 @@ func TestPubSubAPI(t *testing.T) {
 					if m.Pattern != "" {
 						kind = "pmessage"
 					}
-					got[n] = append(got[n], trace.Ev{"kind": kind, "pat": m.Pattern, "ch": m.Channel, "msg": m.Payload})
+					got[n] = append(got[n], trace.Ev{"kind": kind, "pat": m.Pattern, "ch": aliasOf(m.Channel), "msg": m.Payload})
 				}
 			}
 			return got
@@ -226,7 +226,7 @@ func TestPubSubAPI(t *testing.T) {
 			case "pub":
 				nmsg++
 				msg := fmt.Sprintf("m%d", nmsg)
-				count, err := pubs[st.M].Publish(ctx, st.Ch, msg)
+				count, err := pubs[st.M].Publish(ctx, realName(st.Ch), msg)
 				if err != nil {
 					t.Fatal(err)
 				}
